@@ -152,6 +152,7 @@ def build_unit(unit_dir, out_path, mutate=None, neg_control=False, bodies=None):
         spec_by_path[fs.path] = fs
 
     pieces = []
+    last_flag = False
     item_list = []
     for inc in u.get("include", []):
         iu = load_unit(os.path.join(os.path.dirname(unit_dir.rstrip("/")), inc))
@@ -169,10 +170,14 @@ def build_unit(unit_dir, out_path, mutate=None, neg_control=False, bodies=None):
                 spec_by_path[fs.path] = fs
             fnspecs = fnspecs + ispecs
         for item in iu.get("item", []):
-            item_list.append((item, iu.get("source"), set(iu.get("rewrites", ["R1", "R2"]))))
+            item_list.append((item, iu.get("source"), set(iu.get("rewrites", ["R1", "R2"])), True))
     for item in u.get("item", []):
-        item_list.append((item, default_src, rewrites))
-    for item, default_src, rewrites in item_list:
+        item_list.append((item, default_src, rewrites, False))
+    for item, default_src, rewrites, inc_flag in item_list:
+        for p_ in pieces:
+            if not hasattr(p_, "included"):
+                p_.included = last_flag
+        last_flag = inc_flag
         srcspec = item.get("source", default_src)
         path, shown = resolve_source(srcspec)
         sf = SourceFile.get(path)
@@ -233,6 +238,9 @@ def build_unit(unit_dir, out_path, mutate=None, neg_control=False, bodies=None):
         else:
             raise Undecided("%s: unknown item kind %s" % (uid, kind))
 
+    for p_ in pieces:
+        if not hasattr(p_, "included"):
+            p_.included = last_flag
     # rewrites + splices
     used_specs = set()
     clause_index = {}
@@ -317,8 +325,10 @@ def build_unit(unit_dir, out_path, mutate=None, neg_control=False, bodies=None):
             if e.start != e.end:
                 raise Undecided("%s: %s: splice is not insert-only" % (uid, p.label))
         p.t2, p.segs2 = t2, segs
-    for item, _d, _r in item_list:
+    for item, _d, _r, _f in item_list:
         for tok in item.get("r4_statements", ()):
+            if bodies is not None and not any(tok in (getattr(p, "orig", "") or "") for p in pieces if p.kind == "fn"):
+                continue        # the function holding the statement is a stub in this part
             if not any(tok in ed["del"] for p in pieces for lg in p.rw_log if lg["rewrite"] == "R4" for ed in lg["edits"]):
                 raise Undecided("%s: R4: listed statement %r not found" % (uid, tok))
     missing = set(spec_by_path) - used_specs
